@@ -42,6 +42,8 @@ func coreMain(args []string) error {
 		return coreRerun(m)
 	case "cmdrace":
 		return coreCmdRace(m)
+	case "exprrows":
+		return coreExprRows(m)
 	}
 	return fmt.Errorf("core: unknown mode %s", args[0])
 }
@@ -63,6 +65,30 @@ func loadCases(path string) ([]*Case, error) {
 }
 
 func coreGen(m map[string]string) error {
+	if m["family"] == "domain" {
+		// deterministic enumeration; n cases starting at a seed-dependent offset (all of them if n >= count)
+		w, err := newNDJSON(m["out"])
+		if err != nil {
+			return err
+		}
+		total := domainCaseCount()
+		n := argInt(m, "n", total)
+		if n > total {
+			n = total
+		}
+		start := int((Seed() * 7919) % int64(total))
+		for i := 0; i < n; i++ {
+			// stride through the table so that a sample covers every function/kind/position
+			id := (start+i*37)%total + 1
+			if n == total {
+				id = i + 1
+			}
+			if err := w.Write(genDomainCase(id)); err != nil {
+				return err
+			}
+		}
+		return w.Close()
+	}
 	cfg, ok := families[m["family"]]
 	if !ok {
 		return fmt.Errorf("unknown family %q", m["family"])
@@ -276,6 +302,22 @@ func coreReplay(m map[string]string) error {
 			}
 			obs := h.next(arg)
 			waitingForChoice = obs.Out["k"] == "opts"
+			if jsonEqual(st.Out, map[string]any{"k": "oos"}) {
+				// the model gives no verdict from here on, except that nothing may panic and the
+				// runner stays usable: drive it a few more calls
+				for extra := 0; extra < 6 && obs.Panic == ""; extra++ {
+					k := obs.Out["k"]
+					if k == "end" || k == "waiting" {
+						break
+					}
+					obs = h.next(0)
+				}
+				if obs.Panic != "" {
+					diffs[bi] = &replayDiff{Case: c.ID, Beh: bi, Step: si, Field: "out", Exp: json.RawMessage(`{"k":"anything but a panic"}`),
+						Got: obs.Out, Panic: obs.Panic, Layout: l.describe(), Texts: texts}
+				}
+				return
+			}
 			var field string
 			var exp json.RawMessage
 			var got any
